@@ -257,6 +257,13 @@ class _TopKConfusionMatrix(_ConfusionMatrix):
     self.k = np.asarray(k, dtype=dtype)
     super().__init__(tp, tn, fp, fn, dtype=dtype)
 
+  def __add__(self, other):
+    # Keeps the top-k list when accumulating over batches.
+    result = super().__add__(other)
+    return _TopKConfusionMatrix(
+        self.k, result.tp, result.tn, result.fp, result.fn
+    )
+
   def __eq__(self, other):
     """Numerically equals."""
     return np.allclose(self.k, other.k) and super().__eq__(other)
